@@ -2260,7 +2260,7 @@ impl<'a, S: RowSource> Executor<'a> for DynamicExecutor<'a, S> {
             }
             DynamicExecutor::TopK(state) => {
                 if !state.computed {
-                    let heap_size = (state.limit + state.offset) as usize;
+                    let heap_size = state.limit.saturating_add(state.offset) as usize;
                     let sort_keys = &state.sort_keys;
 
                     while let Some(row) = state.child.next()? {
@@ -2395,7 +2395,7 @@ impl<'a, S: RowSource> Executor<'a> for DynamicExecutor<'a, S> {
                     let offset = state.offset as usize;
                     let limit = state.limit as usize;
                     let start = offset.min(state.heap.len());
-                    let end = (offset + limit).min(state.heap.len());
+                    let end = offset.saturating_add(limit).min(state.heap.len());
                     state.result = state.heap.drain(start..end).collect();
                     state.computed = true;
                 }
